@@ -736,20 +736,35 @@ fn extract_object_shape(
     schema: &Runtype,
     named_schemas: &[NamedSchema],
 ) -> Option<BTreeMap<String, Optionality<Runtype>>> {
+    extract_object_shape_following(schema, named_schemas, &mut vec![])
+}
+
+fn extract_object_shape_following(
+    schema: &Runtype,
+    named_schemas: &[NamedSchema],
+    following: &mut Vec<RuntypeUUID>,
+) -> Option<BTreeMap<String, Optionality<Runtype>>> {
     match &schema.kind {
         RuntypeKind::Object {
             vs,
             indexed_properties,
         } if indexed_properties.is_none() => Some(vs.clone()),
-        RuntypeKind::Ref(r) => named_schemas
-            .iter()
-            .find(|it| it.name == *r)
-            .and_then(|it| extract_object_shape(&it.schema, named_schemas)),
+        RuntypeKind::Ref(r) => {
+            // a name that leads back to itself (type A = A & { .. }) has no object shape
+            if following.contains(r) {
+                return None;
+            }
+            let named = named_schemas.iter().find(|it| it.name == *r)?;
+            following.push(r.clone());
+            let res = extract_object_shape_following(&named.schema, named_schemas, following);
+            following.pop();
+            res
+        }
         RuntypeKind::AllOf(vs) => {
             let mut acc = BTreeMap::new();
 
             for schema in vs {
-                let extracted = extract_object_shape(schema, named_schemas)?;
+                let extracted = extract_object_shape_following(schema, named_schemas, following)?;
 
                 for (key, value) in &extracted {
                     if let Some(existing) = acc.get(key)
